@@ -61,6 +61,11 @@ type grEnv struct {
 	raises    map[string]string
 	recovered []string
 	mwlog     []string
+	// a second group built from the same option array (see newGroup)
+	lookupFault   bool
+	twin          *mux.Group[*H]
+	twinN         int
+	twinRecovered int
 }
 
 func (e *grEnv) run(h *H, i int) {
@@ -144,19 +149,55 @@ func parseMatcher(f []string) (mux.Matcher, []string) {
 }
 
 func (e *grEnv) newGroup(recover bool) {
-	var opts []mux.Option
+	// The options are handed over as prefixes of ONE array with spare capacity: the group under test gets
+	// backing[:1], a twin group gets backing[:2] whose second option is a recovery function of its own.
+	// A callee that appends to the slice it was given (instead of copying) overwrites the twin's option.
+	backing := make([]mux.Option, 2, 6)
+	backing[0] = mux.WithRecovery(nil) // an option without effect
 	if recover {
-		opts = append(opts, e.recoverOpt())
+		backing[0] = e.recoverOpt()
 	}
-	e.g = mux.NewGroup[*H](e.call, &H{term: "GNF", core: "GNF"},
-		func(n types.Node) *H { return &H{term: "NA", core: "NA", node: n} },
-		func(n types.Node) *H { return &H{term: "OP", core: "OP", node: n} }, opts...)
+	backing[1] = mux.WithRecovery(func(w http.ResponseWriter, msg any) { e.twinRecovered++ })
+	nf := &H{term: "GNF", core: "GNF"}
+	na := func(n types.Node) *H { return &H{term: "NA", core: "NA", node: n} }
+	op := func(n types.Node) *H { return &H{term: "OP", core: "OP", node: n} }
+	e.g = mux.NewGroup[*H](e.call, nf, na, op, backing[:1]...)
+	e.twin = mux.NewGroup[*H](func(http.ResponseWriter, *http.Request, types.Route, *H) { panic("twin-boom") }, nf, na, op, backing[:2]...)
+	e.twinN = 0
 }
 
-func (e *grEnv) router(name string) *mux.Router[*H] {
+// twinProbe: a router created NOW by the twin group must still contain a panic with the twin's recovery function.
+func (e *grEnv) twinProbe() bool {
+	e.twinN++
+	name := "twin" + itoa(e.twinN)
+	ok := true
+	func() {
+		defer func() {
+			if recover() != nil {
+				ok = false
+			}
+		}()
+		rt := e.twin.New(name, nil)
+		rt.Handle("/boom", &H{term: "B", core: "B"}, nil, http.MethodGet)
+		before := e.twinRecovered
+		e.twin.ServeHTTP(httptest.NewRecorder(), httptest.NewRequest(http.MethodGet, "http://t/boom", nil))
+		if e.twinRecovered != before+1 {
+			ok = false
+		}
+	}()
+	e.twin.Remove(name)
+	return ok
+}
+
+func (e *grEnv) router(name string) (rt *mux.Router[*H]) {
 	if r, ok := e.solo[name]; ok {
 		return r
 	}
+	defer func() { // a fault inside Group.Router is an observation, not the end of the run
+		if recover() != nil {
+			rt, e.lookupFault = nil, true
+		}
+	}()
 	return e.g.Router(name)
 }
 
@@ -219,7 +260,7 @@ func (e *grEnv) exec(o []string) []string {
 		e.solo = map[string]*mux.Router[*H]{}
 		return []string{"ok"}
 	case "gnew":
-		return outcome(guard(func() {
+		return withTwin(outcome(guard(func() {
 			m, _ := parseMatcher(o[4:])
 			var opts []mux.Option
 			if o[2] == "1" {
@@ -232,7 +273,7 @@ func (e *grEnv) exec(o []string) []string {
 				opts = append(opts, mux.WithRecovery(nil))
 			}
 			e.g.New(o[1], m, opts...)
-		}))
+		})), e.twinProbe())
 	case "rnew":
 		var opts []mux.Option
 		if o[2] == "1" {
@@ -246,11 +287,12 @@ func (e *grEnv) exec(o []string) []string {
 			func(n types.Node) *H { return &H{term: "OP", core: "OP", node: n} }, opts...)
 		return []string{"ok"}
 	case "gremove":
-		if r := e.g.Router(o[1]); r != nil { // the removed router object stays usable (and can be added again)
-			e.solo[o[1]] = r
-		}
-		e.g.Remove(o[1])
-		return []string{"ok"}
+		return outcome(guard(func() {
+			if r := e.g.Router(o[1]); r != nil { // the removed router object stays usable (and can be added again)
+				e.solo[o[1]] = r
+			}
+			e.g.Remove(o[1])
+		}))
 	case "gadd": // Group.Add(matcher, r) with an existing router object: one made by rnew or one removed earlier
 		r, ok := e.solo[o[1]]
 		if !ok {
@@ -278,6 +320,10 @@ func (e *grEnv) exec(o []string) []string {
 		mwIDs, rest := takeList(o[4:])
 		methods, _ := takeList(rest)
 		r := e.router(o[1])
+		if e.lookupFault {
+			e.lookupFault = false
+			return []string{"panic", "runtime"}
+		}
 		if r == nil {
 			return []string{"norouter"}
 		}
@@ -303,6 +349,14 @@ func (e *grEnv) exec(o []string) []string {
 		return e.serve(r, o[2], "", o[3], "", rs)
 	}
 	return []string{"unknown-op"}
+}
+
+// outcome of a group mutation plus the twin group's health
+func withTwin(out []string, twinOK bool) []string {
+	if !twinOK {
+		return append(out, "twin-group-lost-its-recovery-option")
+	}
+	return out
 }
 
 func execGR(ops [][]string, w *W) {
@@ -332,6 +386,14 @@ func parsedAccept(accept string) []string {
 var grHosts = []string{"a.com", "b.com", "api.example.com", "{sub}.example.com"}
 
 func genMatcher(r *rand.Rand, depth int) []string {
+	if depth == 0 && r.Intn(9) == 0 {
+		// And(pv ver, Or(And(hv ver, <rejects>), any)): an inner member overwrites a parameter an outer member
+		// captured, then the inner And rejects - the outer capture must be back when the Or falls through
+		rej := pick(r, [][]string{{"hosts", "1", "never.example"}, {"pv", "", "1", "zz"}})
+		inner := append([]string{"and", "2", "hv", "ver", "", "2", "1", "2"}, rej...)
+		or := append(append([]string{"or", "2"}, inner...), "any")
+		return append([]string{"and", "2", "pv", "ver", "2", "v1", "v2"}, or...)
+	}
 	switch x := r.Intn(10); {
 	case x < 2:
 		return []string{"any"}
@@ -425,6 +487,17 @@ func genGR(focus string) func(r *rand.Rand, w *W) [][]string {
 		}
 		if r.Intn(3) == 0 {
 			ops = append(ops, append([]string{"guse"}, list(newMws(2)...)...))
+		}
+		if len(names) >= 3 && r.Intn(4) == 0 {
+			// a router that is not the last is removed, then its successor is addressed by name
+			i := r.Intn(len(names) - 1)
+			ops = append(ops, []string{"gremove", names[i]})
+			if r.Intn(2) == 0 {
+				ops = append(ops, []string{"gremove", names[i+1]})
+			} else {
+				hid++
+				ops = append(ops, append([]string{"ghandle", names[i+1], "/succ", "h" + itoa(hid)}, append(list(), list("GET")...)...))
+			}
 		}
 		if r.Intn(4) == 0 && len(names) > 0 {
 			gone := pick(r, names)
